@@ -5,10 +5,145 @@ use vstd::prelude::*;
 use crate::specs::*;
 //@ tags C02 C03 C01 C06
 
+/// k <= floor(y / d)  <==>  k * d <= y      (d > 0)
+pub proof fn lemma_le_floor(k: int, y: int, d: int)
+    requires d > 0,
+    ensures k <= y / d <==> k * d <= y,
+{
+    vstd::arithmetic::div_mod::lemma_fundamental_div_mod(y, d);
+    vstd::arithmetic::div_mod::lemma_mod_bound(y, d);
+    let e = y / d; let m = y % d;
+    assert(k <= e <==> k * d <= y) by(nonlinear_arith) requires y == d * e + m, 0 <= m < d, d > 0;
+}
+/// ceil(n / d) <= x  <==>  n <= x * d      (d > 0)
+pub proof fn lemma_ceil_le(n: int, d: int, x: int)
+    requires d > 0,
+    ensures div_round(n, d, true) <= x <==> n <= x * d,
+{
+    vstd::arithmetic::div_mod::lemma_fundamental_div_mod(n, d);
+    vstd::arithmetic::div_mod::lemma_mod_bound(n, d);
+    let c = div_round(n, d, true);
+    assert(c <= x <==> n <= x * d) by(nonlinear_arith)
+        requires n == d * (n / d) + n % d, 0 <= n % d < d, d > 0, c == (if n % d != 0 { n / d + 1 } else { n / d });
+}
+/// ceil(n/d) * d >= n   and   floor(n/d) * d <= n
+pub proof fn lemma_round_bounds(n: int, d: int)
+    requires d > 0,
+    ensures div_round(n, d, true) * d >= n, div_round(n, d, false) * d <= n, n >= 0 ==> div_round(n, d, false) >= 0 && div_round(n, d, true) >= 0,
+{
+    lemma_ceil_le(n, d, div_round(n, d, true));
+    lemma_le_floor(div_round(n, d, false), n, d);
+    if n >= 0 { vstd::arithmetic::div_mod::lemma_div_pos_is_pos(n, d); }
+}
+
+/// token B, exact-in (price moves up by floor(x*Q/l)): stays at or below the target, recomputed input <= x
+pub proof fn lemma_partial_b_in(cur: int, target: int, l: int, x: int)
+    requires cur > 0, target >= cur, l > 0, x >= 0, delta_b(cur, target, l, true) > x,
+    ensures ({ let next = next_from_b(cur, l, x, true); cur <= next <= target && delta_b(cur, next, l, true) <= x }),
+{
+    let q = Q(); let d = target - cur; let e = (x * q) / l; let next = cur + e;
+    assert(x * q >= 0) by(nonlinear_arith) requires x >= 0, q > 0;
+    vstd::arithmetic::div_mod::lemma_div_pos_is_pos(x * q, l);
+    lemma_le_floor(e, x * q, l);                 // e*l <= x*q
+    lemma_ceil_le(l * d, q, x);                  // ceil(l*d/q) > x  ==>  l*d > x*q
+    assert(abs_diff(cur, target) == d);
+    assert(e < d || d == 0 && false) by(nonlinear_arith) requires e * l <= x * q, l * d > x * q, l > 0, e >= 0, d >= 0;
+    assert(abs_diff(cur, next) == e);
+    lemma_ceil_le(l * e, q, x);
+    assert(l * e == e * l) by(nonlinear_arith);
+}
+/// token B, exact-out (price moves down by ceil(x*Q/l)): stays at or above the target, recomputed output >= x
+pub proof fn lemma_partial_b_out(cur: int, target: int, l: int, x: int)
+    requires target > 0, target <= cur, l > 0, x >= 0, delta_b(cur, target, l, false) > x,
+    ensures ({ let next = next_from_b(cur, l, x, false); target <= next <= cur && delta_b(cur, next, l, false) >= x }),
+{
+    let q = Q(); let d = cur - target; let c = div_round(x * q, l, true); let next = cur - c;
+    assert(x * q >= 0) by(nonlinear_arith) requires x >= 0, q > 0;
+    lemma_round_bounds(x * q, l);                // c*l >= x*q, c >= 0
+    assert(abs_diff(cur, target) == d);
+    lemma_le_floor(x + 1, l * d, q);             // floor(l*d/q) >= x+1  ==>  (x+1)*q <= l*d
+    assert(x * q <= d * l) by(nonlinear_arith) requires (x + 1) * q <= l * d, q > 0;
+    lemma_ceil_le(x * q, l, d);                  // c <= d
+    assert(abs_diff(cur, next) == c);
+    lemma_le_floor(x, l * c, q);
+    assert(l * c == c * l) by(nonlinear_arith);
+}
+/// token A, exact-in (price moves down to ceil(l*p*Q / (l*Q + x*p))): stays at or above the target, recomputed input <= x
+pub proof fn lemma_partial_a_in(cur: int, target: int, l: int, x: int)
+    requires target > 0, target <= cur, l > 0, x >= 0, delta_a(cur, target, l, true) > x,
+    ensures ({ let next = next_from_a(cur, l, x, true); target <= next <= cur && delta_a(cur, next, l, true) <= x }),
+{
+    let q = Q();
+    if x == 0 {
+        assert(abs_diff(cur, cur) == 0);
+        assert(l * 0 * q == 0) by(nonlinear_arith);
+        assert(cur * cur > 0) by(nonlinear_arith) requires cur > 0;
+        vstd::arithmetic::div_mod::lemma_div_of0(cur * cur);
+        vstd::arithmetic::div_mod::lemma_small_mod(0, (cur * cur) as nat);
+    } else {
+        let d = cur - target;
+        let nn = l * cur * q; let den = l * q + x * cur;
+        assert(den > 0 && x * cur >= 0) by(nonlinear_arith) requires l > 0, q > 0, x > 0, cur > 0, den == l * q + x * cur;
+        let n = div_round(nn, den, true);
+        assert(abs_diff(cur, target) == d);
+        assert(cur * target > 0) by(nonlinear_arith) requires cur > 0, target > 0;
+        lemma_ceil_le(l * d * q, cur * target, x);            // l*d*q > x*cur*target
+        // n <= cur
+        assert(nn <= cur * den) by(nonlinear_arith) requires nn == l * cur * q, den == l * q + x * cur, x * cur >= 0, cur > 0;
+        lemma_ceil_le(nn, den, cur);
+        // n >= target:  nn > target*den >= (target-1)*den
+        assert(nn > (target - 1) * den) by(nonlinear_arith)
+            requires nn == l * cur * q, den == l * q + x * cur, l * d * q > x * (cur * target), d == cur - target, den > 0;
+        lemma_ceil_le(nn, den, target - 1);
+        // recomputed input: l*(cur-n)*q <= x*cur*n  <==  nn <= n*den
+        lemma_round_bounds(nn, den);
+        assert(abs_diff(cur, n) == cur - n);
+        assert(cur * n > 0) by(nonlinear_arith) requires cur > 0, n >= target, target > 0;
+        assert(l * (cur - n) * q <= x * (cur * n)) by(nonlinear_arith) requires n * den >= nn, nn == l * cur * q, den == l * q + x * cur;
+        lemma_ceil_le(l * (cur - n) * q, cur * n, x);
+    }
+}
+/// token A, exact-out (price moves up to ceil(l*p*Q / (l*Q - x*p))): stays at or below the target, recomputed output >= x
+pub proof fn lemma_partial_a_out(cur: int, target: int, l: int, x: int)
+    requires cur > 0, target >= cur, l > 0, x >= 0, delta_a(cur, target, l, false) > x, l * Q() > x * cur,
+    ensures ({ let next = next_from_a(cur, l, x, false); cur <= next <= target && delta_a(cur, next, l, false) >= x }),
+{
+    let q = Q();
+    if x == 0 {
+        assert(abs_diff(cur, cur) == 0);
+        assert(l * 0 * q == 0) by(nonlinear_arith);
+        assert(cur * cur > 0) by(nonlinear_arith) requires cur > 0;
+        vstd::arithmetic::div_mod::lemma_div_of0(cur * cur);
+        vstd::arithmetic::div_mod::lemma_small_mod(0, (cur * cur) as nat);
+    } else {
+        let d = target - cur;
+        let nn = l * cur * q; let den = l * q - x * cur;
+        assert(den > 0);
+        let n = div_round(nn, den, true);
+        assert(abs_diff(cur, target) == d);
+        assert(cur * target > 0) by(nonlinear_arith) requires cur > 0, target > 0;
+        lemma_le_floor(x + 1, l * d * q, cur * target);        // (x+1)*cur*target <= l*d*q
+        assert(x * (cur * target) <= l * d * q) by(nonlinear_arith) requires (x + 1) * (cur * target) <= l * d * q, cur * target > 0;
+        // n >= cur:  nn > (cur-1)*den
+        assert(x * cur > 0) by(nonlinear_arith) requires x > 0, cur > 0;
+        assert(nn > (cur - 1) * den) by(nonlinear_arith) requires nn == l * cur * q, den == l * q - x * cur, den > 0, x * cur > 0, cur > 0;
+        lemma_ceil_le(nn, den, cur - 1);
+        // n <= target:  nn <= target*den
+        assert(nn <= target * den) by(nonlinear_arith)
+            requires nn == l * cur * q, den == l * q - x * cur, x * (cur * target) <= l * d * q, d == target - cur;
+        lemma_ceil_le(nn, den, target);
+        // recomputed output: x*cur*n <= l*(n-cur)*q  <==  nn <= n*den
+        lemma_round_bounds(nn, den);
+        assert(abs_diff(cur, n) == n - cur);
+        assert(cur * n > 0) by(nonlinear_arith) requires cur > 0, n >= cur;
+        assert(x * (cur * n) <= l * (n - cur) * q) by(nonlinear_arith) requires n * den >= nn, nn == l * cur * q, den == l * q - x * cur;
+        lemma_le_floor(x, l * (n - cur) * q, cur * n);
+    }
+}
+
 /// Partial step: when the whole segment cur->target is not affordable (exact-in) / not needed (exact-out),
-/// the price computed from the amount stays strictly on the trade side, within [target, cur] resp. [cur, target],
+/// the price computed from the amount stays on the trade side, within [target, cur] resp. [cur, target],
 /// the recomputed input never exceeds the budget and the recomputed output is at least the request.
-#[verifier::external_body]
 pub proof fn lemma_partial_step(cur: int, target: int, l: int, x: int, is_in: bool, a_to_b: bool)
     requires price_ok(cur), price_ok(target), l >= 0, 0 <= x <= U64MAX(),
         a_to_b ==> target <= cur, !a_to_b ==> target >= cur,
@@ -23,6 +158,11 @@ pub proof fn lemma_partial_step(cur: int, target: int, l: int, x: int, is_in: bo
         &&& (!is_in ==> fixed_delta(cur, next, l, is_in, a_to_b) >= x)
     }),
 {
+    if l == 0 { lemma_fixed_delta_zero_liquidity(cur, target, is_in, a_to_b); }
+    if is_in && a_to_b { lemma_partial_a_in(cur, target, l, x); }
+    else if is_in && !a_to_b { lemma_partial_b_in(cur, target, l, x); }
+    else if !is_in && a_to_b { lemma_partial_b_out(cur, target, l, x); }
+    else if l * Q() > x * cur { lemma_partial_a_out(cur, target, l, x); }
 }
 
 pub proof fn lemma_fixed_delta_zero_liquidity(p0: int, p1: int, is_in: bool, a_to_b: bool)
